@@ -3,10 +3,15 @@
 Keeps a confirmed property-breaking change under /verif/seeded/<seed id>/."""
 import json, os, shutil, sys
 sd, n, prop, sid, needs, caught, first = sys.argv[1:8]
+if sid == "next":
+    import glob
+    used = sorted(os.path.basename(x).split("-")[1] for x in glob.glob(os.path.join(os.path.dirname(os.path.dirname(os.path.abspath(__file__))), "seeded", prop + "-*")))
+    sid = "%s-%s" % (prop, chr(ord(max(used, key=lambda u: (len(u), u))[-1]) + 1) if used else "a")
 strength = sys.argv[8] if len(sys.argv) > 8 else ""
 d = os.path.join(os.path.dirname(os.path.dirname(os.path.abspath(__file__))), "seeded", sid)
 os.makedirs(d, exist_ok=True)
-shutil.copy(os.path.join(sd, "patch%s.diff" % n), os.path.join(d, "patch.diff"))
+reb = os.path.join(sd, "patch%s.rebased.diff" % n)     # written by seedcheck.sh when the patch had to be applied three-way
+shutil.copy(reb if os.path.exists(reb) else os.path.join(sd, "patch%s.diff" % n), os.path.join(d, "patch.diff"))
 shutil.copy(os.path.join(sd, "demo%s.py" % n), os.path.join(d, "demo.py"))
 if os.path.exists(os.path.join(sd, "notes.md")):
     shutil.copy(os.path.join(sd, "notes.md"), os.path.join(d, "author_notes.md"))
